@@ -115,6 +115,28 @@ impl AnyDist {
     }
 }
 
+impl AnyDist {
+    pub fn describe(&self) -> &str {
+        &self.desc
+    }
+}
+
+/// A distribution that satisfies the documented preconditions on all mid points of
+/// `lo..=hi` (at most 4000 of them are probed); `None` otherwise.
+pub fn gen_any_dist(src: &mut Src, lo: i64, hi: i64) -> Option<AnyDist> {
+    let dist = gen_dist(src, lo as f64, hi as f64);
+    let mut prev = 0.0f64;
+    let stride = (((hi - lo) as u64 / 4000) + 1) as usize;
+    for s in (lo..hi).step_by(stride) {
+        let c = dist.cdf(s as f64 + 0.5);
+        if !(c.is_finite() && (0.0..=1.0).contains(&c) && c >= prev) {
+            return None;
+        }
+        prev = c;
+    }
+    Some(dist)
+}
+
 impl pd::Distribution for AnyDist {
     type Value = f64;
     fn distribution(&self, x: f64) -> f64 {
